@@ -379,26 +379,7 @@ def run(ctx):
                        what="%s moves the cursor %d+1 characters past the start of an ellipsis (`%s; %s`): the ellipsis has three" % (q16, step, A.src(prev), A.src(wl)[:40]))
     ctx.require(n16 >= 1, "R11.16: no step over an ellipsis found")
 
-    # ---- R11.14: the checker's choice of the left neighbour tells arrays apart (sibling of R11.12)
-    ctx.rule("R11.14", "LOOKBEHIND-KINDS (checker): where the checker looks for the value a range counts on from - the text of the previous argument - it sets an array apart (its first character '[' or its type 'a'); an ellipsis inside the array is not the end of a preceding range, and the scanner (R11.12) does not count on from an array")
-    chk14 = u.function("rtosc_skip_next_printed_arg")
-    llp = [p_ for p_ in u.params(chk14) if "char" in (A.qtype(p_) or "") and "*" in (A.qtype(p_) or "") and any(
-        y.get("kind") == "CallExpr" and A.callee_name(y) == "strstr" and A.ref_id(A.kids(y)[1]) == p_["id"] for y in A.walk(u.body(chk14)))]
-    ctx.require(len(llp) == 1, "R11.14: the checker's cursor to the previous argument (searched for an ellipsis) was not found")
-    blocks14 = [x for x in A.walk(u.body(chk14)) if x.get("kind") == "IfStmt" and A.ref_id(A.kids(x)[0]) == llp[0]["id"]]
-    ctx.require(len(blocks14) == 1, "R11.14: the block guarded by the previous-argument cursor was not found (%d)" % len(blocks14))
-    lits14 = set()
-    for x in A.walk(A.kids(blocks14[0])[1]):
-        if x.get("kind") == "BinaryOperator" and x.get("opcode") in ("==", "!="):
-            for side in A.kids(x):
-                v = A.int_literal(side)
-                if v in (ord("["), ord("a")):
-                    lits14.add(chr(v))
-        if x.get("kind") == "CaseStmt" and A.int_literal(A.kids(x)[0]) in (ord("["), ord("a")):
-            lits14.add(chr(A.int_literal(A.kids(x)[0])))
-    ctx.ob("R11.14", "left neighbour of a range (checker)", bool(lits14), site=A.where(blocks14[0]), detail={"array_markers_compared": sorted(lits14)},
-           key="R11.14:left neighbour",
-           what="the checker takes the text after the first ellipsis of the previous argument as the value a range counts on from, without setting arrays apart: `[1 ... 3] 5 ... 8` is rejected (step 5-3 = 2 does not reach 8) while the scanner reads 5 6 7 8")
+    left_neighbour_checker(ctx, u, "R11.14")
 
     # ---- R11.13: out-parameters of the checker, on the IR of every function of the unit
     ctx.rule("R11.13", "OUT-PARAMETER: a local handed to the checker (rtosc_skip_next_printed_arg) as an output that the checker can leave unwritten when it rejects the text is defined before the call, or the call's result is used, or the local is not read afterwards")
@@ -734,3 +715,29 @@ def _stands_on_ellipsis(u, at, var_id, depth):
     if e.get("kind") == "DeclRefExpr":
         return _stands_on_ellipsis(u, node, A.ref_id(e), depth + 1)
     return False
+
+def left_neighbour_checker(ctx, u, rule):
+    # ---- R11.14: the checker's choice of the left neighbour tells arrays apart (sibling of R11.12)
+    ctx.rule(rule, "LOOKBEHIND-KINDS (checker): where the checker looks for the value a range counts on from - the text of the previous argument - it sets an array apart (its first character '[' or its type 'a') and a quoted string (its first character or its type); an ellipsis inside either is not the end of a preceding range, and the scanner (R11.12) does not count on from an array")
+    chk14 = u.function("rtosc_skip_next_printed_arg")
+    llp = [p_ for p_ in u.params(chk14) if "char" in (A.qtype(p_) or "") and "*" in (A.qtype(p_) or "") and any(
+        y.get("kind") == "CallExpr" and A.callee_name(y) == "strstr" and A.ref_id(A.kids(y)[1]) == p_["id"] for y in A.walk(u.body(chk14)))]
+    ctx.require(len(llp) == 1, rule + ": the checker's cursor to the previous argument (searched for an ellipsis) was not found")
+    blocks14 = [x for x in A.walk(u.body(chk14)) if x.get("kind") == "IfStmt" and A.ref_id(A.kids(x)[0]) == llp[0]["id"]]
+    ctx.require(len(blocks14) == 1, rule + ": the block guarded by the previous-argument cursor was not found (%d)" % len(blocks14))
+    lits14 = set()
+    for x in A.walk(A.kids(blocks14[0])[1]):
+        if x.get("kind") == "BinaryOperator" and x.get("opcode") in ("==", "!="):
+            for side in A.kids(x):
+                v = A.int_literal(side)
+                if v in (ord("["), ord("a"), ord('"'), ord("s"), ord("S")):
+                    lits14.add(chr(v))
+        if x.get("kind") == "CaseStmt" and A.int_literal(A.kids(x)[0]) in (ord("["), ord("a"), ord('"'), ord("s"), ord("S")):
+            lits14.add(chr(A.int_literal(A.kids(x)[0])))
+    ctx.ob(rule, "left neighbour of a range (checker): strings", bool(lits14 & {'"', "s", "S"}), site=A.where(blocks14[0]), detail={"markers_compared": sorted(lits14)},
+           key=rule + ":left neighbour:strings",
+           what="the checker searches the text of the previous argument for an ellipsis without setting quoted strings apart: the printed text `\"x... 7 \" 1 ... 6` (a string that contains three dots, then a range) is rejected")
+    ctx.ob(rule, "left neighbour of a range (checker)", bool(lits14 & {"[", "a"}), site=A.where(blocks14[0]), detail={"array_markers_compared": sorted(lits14)},
+           key=rule + ":left neighbour",
+           what="the checker takes the text after the first ellipsis of the previous argument as the value a range counts on from, without setting arrays apart: `[1 ... 3] 5 ... 8` is rejected (step 5-3 = 2 does not reach 8) while the scanner reads 5 6 7 8")
+
